@@ -88,16 +88,38 @@ Definition recs (w : wst) (q : N) : list N :=
 Definition dk (c : cand) : dkey := (cu c, cw c).
 Definition corner_ok (c : cand) : bool :=
   Bool.eqb (czero c) (negb (dk_pos (dk c))) && Bool.eqb (crank c =? 0) (czero c).
-(* weights <= 8: float64 resolves every pair of distinct exact keys, the orders
-   must coincide.  Equal larger weights: keys crowd near 1 (for weight 2^32-1
-   draws closer than about 5e-7 relative give the same float64), so only
-   "no inversion" is required: float < implies exact <. *)
+(* The float64 keys against the exact keys (u/M)^(1/w).  Claimed only for pairs
+   whose exact keys are separated by more than a relative 2^-40 (9.1e-13):
+   then the float64 keys must be strictly ordered the same way.  Pairs closer
+   than that (e.g. (2^32-2, weight 1) and (2^32-3, weight 2): the exact keys
+   differ by a relative 2.7e-20, the float64 keys are equal) carry no claim:
+   the model runs on the observed ranks in any case.
+   Why 2^-40 is safe: x = fl(u * fl(1/M)) has relative error <= 2*2^-53, the
+   exponent fl(1/w) <= 2^-53, which moves x^(1/w) by at most
+   (2 + ln M) * 2^-53 < 25 * 2^-53 relative (|ln x| <= ln M = 22.2 for u >= 1,
+   1/w <= 1); math.Pow is taken to be accurate to a few ulp.  2^-40 is more
+   than 300 times that sum.
+   Separation is decided in N by a sufficient condition, using
+   (1+2^-40)^n <= 1/(1 - n*2^-40) for n < 2^40:
+     weights <= 8:   k_a * (1+2^-40) < k_b  <-  (k_a/k_b)^(w1*w2) < 1 - w1*w2*2^-40, i.e.
+                     u1^w2 * M^w1 * 2^40 < u2^w1 * M^w2 * (2^40 - w1*w2)
+     equal weights w (any size < 2^40):
+                     u1 * 2^40 < u2 * (2^40 - w).
+   Equal exact keys (same draw and weight, or both at a corner) must be equal floats. *)
+Definition two40 : N := 1099511627776.
+Definition dk_sep (a b : dkey) : bool :=
+  let (u1, w1) := dk_norm a in
+  let (u2, w2) := dk_norm b in
+  if w1 =? w2 then u1 * two40 <? u2 * (two40 - w1)
+  else if (w1 <=? 8) && (w2 <=? 8) then
+    u1 ^ w2 * maxU32 ^ w1 * two40 <? u2 ^ w1 * maxU32 ^ w2 * (two40 - w1 * w2)
+  else false.
+Definition dk_same (a b : dkey) : bool :=
+  let (u1, w1) := dk_norm a in
+  let (u2, w2) := dk_norm b in (u1 =? u2) && ((w1 =? w2) || (u1 =? 0) || (u1 =? maxU32)).
 Definition order_pair_ok (a b : cand) : bool :=
-  let (u1, w1) := dk_norm (dk a) in
-  let (u2, w2) := dk_norm (dk b) in
-  if (w1 <=? 8) && (w2 <=? 8) then Bool.eqb (crank a <? crank b) (dk_lt (dk a) (dk b))
-  else if w1 =? w2 then implb (crank a <? crank b) (dk_lt (dk a) (dk b))
-  else true.
+  (if dk_sep (dk a) (dk b) then crank a <? crank b else true)
+  && (if dk_same (dk a) (dk b) then crank a =? crank b else true).
 Definition order_ok (cs : list cand) : bool :=
   forallb (fun a => forallb (order_pair_ok a) cs) cs.
 
